@@ -710,6 +710,6 @@ func init() {
 	properties["C05"] = &Property{ID: "C05", LeanMods: []string{"CrsProps.C05", "CrsProps.C05Gen"}, Corr: "K2 (parser.Parse buffer/flags/prefixes/suffixes/variables), K5", Rule: rule, Gen: genParserCases("include"), Escalate: escalateParser}
 	oracles["c06.emptied"] = oracleEmptiedEntry
 	properties["C06"] = &Property{ID: "C06", LeanMods: []string{"CrsProps.C06"}, Corr: "K2 (parser.Parse; replaceSuffixes/buildPairMap alone), K5", Rule: rule, Gen: genParserCases("except"), Escalate: escalateParser}
-	properties["C07"] = &Property{ID: "C07", LeanMods: []string{"CrsProps.C07"}, Corr: "K2 (parser.Parse; expandDefinitions alone, Go's own random map order varies across calls), K5", Rule: rule + "; definition lines permuted (all permutations up to 4 definitions, sampled beyond)", Gen: genParserCases("defs"), Escalate: escalateParser,
+	properties["C07"] = &Property{ID: "C07", LeanMods: []string{"CrsProps.C07", "CrsProps.C07Gen"}, Corr: "K2 (parser.Parse; expandDefinitions alone, Go's own random map order varies across calls), K5", Rule: rule + "; definition lines permuted (all permutations up to 4 definitions, sampled beyond)", Gen: genParserCases("defs"), Escalate: escalateParser,
 		Assume: []string{"no computed names: no reference comes into existence only through a substitution (generator produces values whose chunks do not end in a proper prefix of a reference)"}}
 }
